@@ -360,28 +360,34 @@ def cmdSparseOps (a : Args) : String :=
   let nullID := a.nat "nullid"
   let s0 := SparseSt.open fetch chunks nullID len [] none none 0
   let ops := if (a.get "ops").isEmpty then [] else (a.get "ops").splitOn ","
-  let step (st : SparseSt × Option (List Bool) × List String) (op : String) :=
-    let (s, saved, out) := st
+  let step (st : SparseSt × Option (List Bool) × List String × Bool) (op : String) :=
+    let (s, saved, out, down) := st
+    let fetch : Fetch := if down then (fun _ _ => none) else fetch
     if op.startsWith "R" then
       match ((op.drop 1).toString).splitOn ":" with
       | [off, n] =>
         match s.readAt fetch (off.toNat?.getD 0) (n.toNat?.getD 0) with
-        | (.data b eof, s') => (s', saved, out ++ ["d:" ++ toHex b ++ (if eof then ":eof" else "")])
-        | (.err, s') => (s', saved, out ++ ["x"])
-      | _ => (s, saved, out ++ ["bad-op"])
-    else if op == "S" then (s, some s.saveState, out ++ ["s"])
+        | (.data b eof, s') => (s', saved, out ++ ["d:" ++ toHex b ++ (if eof then ":eof" else "")], down)
+        | (.err, s') => (s', saved, out ++ ["x"], down)
+      | _ => (s, saved, out ++ ["bad-op"], down)
+    else if op == "S" then (s, some s.saveState, out ++ ["s"], down)
+    else if op == "D" then (s, saved, out ++ ["dn"], true)
+    else if op == "U" then (s, saved, out ++ ["up"], false)
     else if op.startsWith "O" then
-      let k := ((op.drop 1).toString).toNat?.getD 0
+      let withInit := op.endsWith "i"
+      let k := ((((op.drop 1).toString).takeWhile Char.isDigit).toString).toNat?.getD 0
       let file := if k == 2 then [] else if k == 3 then s.file.take (s.file.length / 2) else s.file
       let state := if k == 1 then none else saved
-      -- a (re-)initialised sparse file writes its blank state over whatever state file was there
+      -- a (re-)initialised sparse file writes its state (blank, plus what a pre-load fetched) over whatever state file was there
       let accepted := match state with
         | some st => decide (file.length = len) && decide (st.length = chunks.length)
         | none => false
+      let s' := SparseSt.open fetch chunks nullID len file state (if withInit then saved else none) s.calls
+      -- the pre-load runs in the background; `WriteState` at the end of `NewSparseFile` may see none of it yet
       let saved' := if accepted then saved else some (List.replicate chunks.length false)
-      (SparseSt.open fetch chunks nullID len file state none s.calls, saved', out ++ ["o"])
-    else (s, saved, out ++ ["bad-op"])
-  let (_, _, out) := ops.foldl step (s0, some (List.replicate chunks.length false), [])
+      (s', saved', out ++ ["o"], down)
+    else (s, saved, out ++ ["bad-op"], down)
+  let (_, _, out, _) := ops.foldl step (s0, some (List.replicate chunks.length false), [], false)
   String.intercalate "," out
 
 def callStr : Call → String
